@@ -29,7 +29,7 @@ var Alphabets = []Alphabet{
 		"a", "on", "query", "fragment", "true", "null", "type", "implements", "schema", "extend", "directive", "scalar", "enum", "input", "union", "interface", "mutation",
 		"1", "1.5", `"s"`, `"on"`, `"implements"`, `"""b"""`)},
 	{Name: "executable", MaxLen: [2]int{8, 10}, Tokens: []string{"{", "}", "(", ")", ":", "$", "@", "...", "a", "on", "query", "fragment", "true", "1", `"s"`, "!", "[", "]", "="}},
-	{Name: "variable-definitions", MaxLen: [2]int{11, 13}, Tokens: []string{"query", "(", "$", "a", ":", "[", "]", "!", "=", "1", ")", "{", "}"}},
+	{Name: "variable-definitions", MaxLen: [2]int{12, 14}, Tokens: []string{"query", "(", "$", "a", ":", "[", "]", "!", "=", "1", ")", "{", "}"}},
 	{Name: "values", MaxLen: [2]int{10, 12}, Tokens: []string{"{", "a", "(", ":", "[", "]", "}", "$", "1", `"s"`, "true", ")", "null", "1.5", `"""b"""`}},
 	{Name: "fragments-directives", MaxLen: [2]int{9, 11}, Tokens: []string{"{", "}", "...", "on", "a", "fragment", "@", "(", ")", ":", "1", `"on"`}},
 	{Name: "type-system", MaxLen: [2]int{6, 8}, Tokens: []string{"type", "a", "implements", "&", "{", "}", ":", "(", ")", "[", "]", "!", "=", "@", `"s"`, "1", "|", "schema", "query", "extend", "directive", "on", "union", "enum", "input", "interface", "scalar", `"implements"`}},
@@ -165,6 +165,45 @@ func Bytes(maxLen, shard, nshards int, visit func(text []byte)) {
 				continue
 			}
 			buf = append(buf[:1], b2)
+			rec()
+		}
+	}
+}
+
+// UnitAlphabet: like ByteAlphabet but multi-byte characters are single units (only valid
+// UTF-8 is produced), including the Unicode line/paragraph separators and NEL, which are
+// NOT line terminators in GraphQL.
+var UnitAlphabet = []string{"a", "1", "\"", "\\", "#", "\n", "\r", " ", ",", ".", "-", "{", "}", "\u00e9", "\ufeff", "\u2028", "\u0085", "\t", "\U0001F600"}
+
+// Units enumerates all concatenations of 1..maxLen units (sharded by the first two).
+func Units(maxLen, shard, nshards int, visit func(text []byte)) {
+	var parts []string
+	var rec func()
+	rec = func() {
+		visit([]byte(strings.Join(parts, "")))
+		if len(parts) >= maxLen {
+			return
+		}
+		for _, u := range UnitAlphabet {
+			parts = append(parts, u)
+			rec()
+			parts = parts[:len(parts)-1]
+		}
+	}
+	n := len(UnitAlphabet)
+	for i, u1 := range UnitAlphabet {
+		parts = append(parts[:0], u1)
+		if i%nshards == shard {
+			visit([]byte(u1))
+		}
+		if maxLen < 2 {
+			continue
+		}
+		for j, u2 := range UnitAlphabet {
+			if (i*n+j)%nshards != shard {
+				continue
+			}
+			parts = append(parts[:1], u2)
 			rec()
 		}
 	}
